@@ -106,6 +106,21 @@ class Repo:
         if not self.modules:
             raise AnchorError(f'no modules found under {self.root}/{subdirs}')
 
+    def with_overlay(self, overlay: dict[str, str]) -> 'Repo':
+        """A copy of this repo in which the given files are replaced by in-memory text (others are shared)."""
+        r = Repo.__new__(Repo)
+        r.root = self.root
+        r.overlay = dict(overlay)
+        r.modules = dict(self.modules)
+        r.by_name = dict(self.by_name)
+        r.parse_errors = list(self.parse_errors)
+        r._import_cache = {}
+        r._star_cache = {}
+        for rel in overlay:
+            r.modules.pop(rel, None)
+            r._load_file(rel, None)
+        return r
+
     # ------------------------------------------------------------------
     # loading
 
